@@ -10,10 +10,12 @@ Decision menu at every point (canonical order, index 0 = default):
   ('tick',)        only when nothing is runnable and no env action is
                    enabled: advance the clock to the next deadline
 Costs (deviations): taking an env action while something is runnable (early
-injection) and running another actor than the default one (preemption, or a
-non-default pick among equally runnable actors) cost 1; the choice among
-several enabled env scripts at quiescence is free (all interleavings of the
-scripts' partial order).
+injection) and switching away from an actor that could continue (preemption)
+cost 1. Which runnable actor goes next after the previous one blocked or
+finished is free when the scenario runs with free_switch (iterative context
+bounding proper; used at the thorough tier and on sharp subsets) and costs 1
+otherwise (cheaper; quick tier). The choice among several enabled env scripts
+at quiescence is always free (all interleavings of the scripts' partial order).
 """
 import hashlib
 import json
@@ -43,6 +45,7 @@ class Scenario:
     horizon = 0.0
     max_points = 5000
     free_env_order = True
+    free_switch = False      # True: picks among runnable actors after a block are free (CHESS); False: every non-default pick costs 1
 
     def __init__(self, params):
         self.params = params
@@ -100,6 +103,8 @@ def execute(factory, params, prefix, want_labels=False):
         w = sc.world
         scripts = sc.scripts
         sc.pos = [0] * len(scripts)
+        if isinstance(params, dict) and '_free_switch' in params:
+            sc.free_switch = bool(params['_free_switch'])
         last_actor = None
         n = 0
         while True:
@@ -123,11 +128,15 @@ def execute(factory, params, prefix, want_labels=False):
                 ex.end = 'quiescent'
                 break
             costs = []
+            preempting = bool(runnable) and last_actor is not None and runnable[0] == last_actor
             for k, m in enumerate(menu):
                 if k == 0:
                     costs.append(0)
                 elif m[0] == 'run':
-                    costs.append(1)
+                    # switching away from an actor that could continue is a preemption (cost 1); when the
+                    # actor that ran last has blocked or finished, which of the runnable actors goes next
+                    # is a free choice (iterative context bounding, Musuvathi & Qadeer)
+                    costs.append(1 if (preempting or not sc.free_switch) else 0)
                 elif m[0] == 'env':
                     if runnable:
                         costs.append(1)
